@@ -5,6 +5,7 @@
     (1) certificate checkers are sound for ALL graphs: [c = true -> specification];
         the check runs the real algorithms and feeds their outputs to these checkers;
     (2) model algorithms (closure/BFS reachability, Kahn, Bellman-Ford as transcribed) meet them. *)
+From Coq Require Export ZArith List Bool Permutation.
 From GV Require Export Algo.Spec Algo.Cert Algo.Run.
 From GV Require Import Algo.ProofsBase Algo.ProofsPath Algo.ProofsMsf Algo.ProofsFlow.
 Open Scope Z_scope.
